@@ -22,15 +22,35 @@ Proof.
     + simpl in He. apply andb_true_iff in He as [_ He]. apply is_prefixb_iff in He. exact He.
 Qed.
 
+Lemma goodb_connecting_quiet : forall t,
+  goodb t = true -> connecting_tr t = true ->
+  sent_of t = [] /\ (forall id, ~ In (EResolve id) t).
+Proof.
+  induction t as [|e t IH]; intros Hg Hc.
+  - split; [reflexivity|intros id []].
+  - rewrite goodb_cons in Hg. apply andb_true_iff in Hg as [He Hg].
+    destruct e; simpl in Hc; try discriminate;
+      try (destruct (IH Hg Hc) as [A B]; split; [exact A|intros id' [X|X]; [discriminate|exact (B id' X)]]).
+    + (* ESend while connecting is rejected by the checker *)
+      simpl in He. rewrite Hc in He. simpl in He. rewrite andb_false_r in He. discriminate.
+    + (* EResolve likewise *)
+      simpl in He. rewrite Hc in He. simpl in He.
+      destruct (written_through id t); simpl in He; try discriminate.
+      rewrite andb_false_r in He. discriminate.
+    + (* EConnect is the very first event *)
+      simpl in He. destruct t; [|discriminate]. split; [reflexivity|].
+      intros id' [X|[]]. discriminate.
+Qed.
+
 Section Run.
-  Variables (t : nat) (m : option nat) (sc : list sstep) (ops : list op).
-  Let s := run_ops ops (init t m sc).
+  Variables (cn : option bool) (t : nat) (m : option nat) (sc : list sstep) (ops : list op).
+  Let s := run_ops ops (init_with cn t m sc).
 
   Lemma trace_good : goodb (tr s) = true.
-  Proof. apply (run_inv t m sc ops). Qed.
+  Proof. apply (run_inv cn t m sc ops). Qed.
 
   Lemma never_dead : dead s = false.
-  Proof. apply (run_inv t m sc ops). Qed.
+  Proof. apply (run_inv cn t m sc ops). Qed.
 
   Lemma sent_prefix_written : exists rest, written_of (tr s) = sent_of (tr s) ++ rest.
   Proof. apply goodb_sent_prefix, trace_good. Qed.
@@ -43,15 +63,23 @@ Section Run.
     map snd (wfut s) = pending_ids (tr s) /\
     match maxb s with Some mx => bsize (wb s) <= mx | None => True end.
   Proof.
-    intros Ho. destruct (run_inv t m sc ops) as (_ & _ & Hc). fold s in Hc.
+    intros Ho. destruct (run_inv cn t m sc ops) as (_ & _ & _ & Hc). fold s in Hc.
     rewrite Ho in Hc. destruct Hc as (A & B & C & D & (E & _) & F & G).
     repeat (split; [assumption|]). split; [|split; assumption].
     destruct A as (_ & _ & A3). rewrite A3, C, D, <- B, app_length. lia.
   Qed.
 
+  (* while the connection is pending nothing has reached the transport and no future has resolved *)
+  Lemma connecting_quiet :
+    connecting s = true -> sent_of (tr s) = [] /\ (forall id, ~ In (EResolve id) (tr s)).
+  Proof.
+    intros Hc. destruct (run_inv cn t m sc ops) as (_ & Hg & Hcn & _). fold s in Hg, Hcn.
+    apply goodb_connecting_quiet; [exact Hg|congruence].
+  Qed.
+
   Lemma closed_state : closed s = true -> wfut s = [] /\ pending_ids (tr s) = [].
   Proof.
-    intros Hc. destruct (run_inv t m sc ops) as (_ & _ & H). fold s in H.
+    intros Hc. destruct (run_inv cn t m sc ops) as (_ & _ & _ & H). fold s in H.
     rewrite Hc in H. exact H.
   Qed.
 
@@ -62,6 +90,7 @@ Section Run.
   Proof.
     intros E. pose proof trace_good as H. rewrite E in H.
     apply goodb_split in H as [H _]. simpl in H. apply andb_true_iff in H as [H1 H2].
+    apply andb_true_iff in H1 as [H1 _].
     destruct (written_through id pre) as [w|]; [|discriminate].
     apply is_prefixb_iff in H1 as [r Hr].
     destruct (pending_ids pre) as [|o rest]; [discriminate|].
@@ -70,12 +99,14 @@ Section Run.
 
   Lemma send_spec post off d pre :
     tr s = post ++ ESend off d :: pre ->
-    length d <= off /\ exists r, written_of pre = sent_of pre ++ d ++ r.
+    length d <= off /\ connecting_tr pre = false /\
+    exists r, written_of pre = sent_of pre ++ d ++ r.
   Proof.
     intros E. pose proof trace_good as H. rewrite E in H.
     apply goodb_split in H as [H _]. simpl in H. apply andb_true_iff in H as [H1 H2].
+    apply andb_true_iff in H1 as [H1 H3]. apply negb_true_iff in H3.
     apply Nat.leb_le in H1. apply is_prefixb_iff in H2 as [r Hr].
-    split; auto. exists r. rewrite Hr, app_assoc. reflexivity.
+    split; auto. split; auto. exists r. rewrite Hr, app_assoc. reflexivity.
   Qed.
 
   Lemma write_ids post id d pre :
@@ -109,11 +140,12 @@ Lemma accepted_write s d :
 Proof.
   intros Ho Hf. unfold do_write. rewrite Ho, Hf.
   match goal with |- context [handle_write ?s1] => set (s1' := s1) end.
+  destruct (connecting s); [exists []; reflexivity|].
   assert (H : exists post, tr (handle_write s1') = post ++ tr s1').
   { clear. generalize s1'. clear. intros s.
     assert (Hc : forall s, exists post, tr (close_stream s) = post ++ tr s).
     { intros s0. unfold close_stream. destruct (closed s0); [exists []; reflexivity|].
-      simpl. eexists; reflexivity. }
+      simpl. rewrite app_assoc. eexists; reflexivity. }
     assert (Hr : forall s, exists post, tr (resolve s) = post ++ tr s).
     { intros s0. unfold resolve.
       assert (forall q dn t0, exists post, snd (resolve_loop q dn t0) = post ++ t0) as L.
@@ -134,7 +166,7 @@ Proof.
           else match advance n (wb s1) with
                | AdvOk b' => send_loop f (mkst (thr s1) (maxb s1) b' (twi s1) (twd s1 + n)
                                 (wfut s1) (nfut s1) (closed s1) (listening s1)
-                                (script s1) (dead s1) (tr s1))
+                                (script s1) (dead s1) (connecting s1) (conn_ok s1) (tr s1))
                | _ => LDead (set_dead (emit ECrash s1))
                end)) = post ++ tr s0).
       { intros n sc0. cbv zeta. destruct (n =? 0); [eexists [_]; reflexivity|].
